@@ -550,6 +550,11 @@ func writerMethodRules(c *Ctx, prop string) {
 				if len(em) != 0 || e != "nil" {
 					problems = append(problems, "FlushFragment with an empty buffer must emit nothing ["+r.cfg.String()+"]")
 				}
+				// and count nothing: a fragment that was never sent must not turn the next frame
+				// (the first of a message) into a continuation
+				if r.fin.fseq != fmt.Sprint(r.cfg.fseq) || r.fin.n != "0" {
+					problems = append(problems, fmt.Sprintf("FlushFragment with an empty buffer changes the writer (n=%s fseq=%s, was n=0 fseq=%d): no frame was sent, yet the next one is numbered as if one had been [%s]", r.fin.n, r.fin.fseq, r.cfg.fseq, r.cfg))
+				}
 			default:
 				if len(em) != 1 || fold.Show(em[0].Args[0]) != "false" {
 					problems = append(problems, "FlushFragment must emit exactly one non-final fragment ["+r.cfg.String()+"]")
